@@ -279,13 +279,13 @@ def gen_word(rnd, d):
             if prev and prev[0] == "quoted" and prev[1][-2:] in ("''", '""') and len(prev[1].lstrip("rRbBuU")) == 2:
                 continue  # '' + 'x' would open a triple quote
             pieces.append(("quoted", q, None))
-        elif r < 0.82:
+        elif r < 0.8:
             name = rnd.choice(ENV_NAMES)
             if prev and prev[0] == "plain" and prev[1].endswith("@"):
                 continue
             pieces.append(("env", f"${name}", name))
         elif r < 0.88:
-            e = rnd.choice(["x", "a + b", "f(1)", "[1, 2]", "'s'", "x for x in y", "a, b", "lambda: 1", "d['k']"])
+            e = rnd.choice(["x", "a + b", "f(1)", "[1, 2]", "'s'", "x for x in y", "a, b", "lambda: 1", "d['k']", 'f"{x}"', "f'{a}-{b!r:>4}'", "{'k': v}['k']", "{1, 2}", "f'{x:{w}}' + y", "[f'{i}' for i in z]", "(a, [b, {c}])", "g(h(1)[2])"])
             pieces.append(("pyexpr", f"@({e})", e))
         elif prev and prev[0] == "plain" and prev[1].endswith("@"):
             continue  # '@' directly followed by '(' or '$' is outside the property's alphabet
